@@ -325,3 +325,148 @@ func init() {
 		Outside: []string{"net/http and goccy/go-json themselves (truncated bodies, gzip, non-2xx)", "JSON-RPC id matching (the client never checks ids)"},
 	})
 }
+
+func init() {
+	convAssume := []string{
+		"Postgres is cut at pgxpool.Pool.Begin / pgx.Tx (harness/shovel/pgmodel.go, Go, compiled natively for replay with the same cut): per (src_name, ig_name) pair the cursor rows of shovel.task_updates are explicit, the pair's table rows are the interval lo < block_num <= hi (exact while the rows form an interval, which the invariant asserts); every statement's predicate is parsed from its SQL text; the CTE of latestDependency and the unique index (ig_name, src_name, num) are modelled by hand; READ COMMITTED visibility between sessions is not modelled",
+		"the source is a stub implementing shovel.Source on a hash-linked chain whose block hashes are an injective uninterpreted function of (version, number) (no hash collisions); Get returns exactly the requested consecutive blocks (the C07 post-condition)",
+		"the destination stub records one row per block in the open transaction; Delete is the REAL dig.Integration.Delete issuing its SQL through the model",
+		"goroutines of errgroup run sequentially in spawn order (and in reverse order in the thorough tier); order-dependence beyond that is C18's subject",
+		"one inductive step: the pre-state is an ARBITRARY committed state satisfying the invariant (k cursor rows with arbitrary increasing numbers, rows covering exactly (lo, top]), so histories of any length and any earlier batch sizes are covered; all block numbers < 2^62",
+	}
+	steps := func(tier string) (ks, batches, concs []int) {
+		if tier == "thorough" {
+			return []int{0, 1, 2, 3}, []int{1, 2, 3, 4, 6}, []int{1, 2, 3, 4, 8}
+		}
+		return []int{0, 1, 2}, []int{1, 2, 3}, []int{1, 2, 4}
+	}
+	register(&PropSpec{
+		ID:   "C01",
+		Pkgs: []string{"./shovel"},
+		Runs: func(tier string) []HRun {
+			var rs []HRun
+			ks, bs, cs := steps(tier)
+			for _, k := range ks {
+				for _, b := range bs {
+					for _, c := range cs {
+						rs = append(rs, HRun{Pkg: "./shovel", Fn: "ZZ_C01_Step", Params: []int{k, b, c}})
+						if tier == "thorough" {
+							rs = append(rs, HRun{Pkg: "./shovel", Fn: "ZZ_C01_Step", Params: []int{k, b, c}, GoOrder: 1, Label: "reverse-goroutine-order"})
+						}
+					}
+				}
+			}
+			return rs
+		},
+		Assumptions: append([]string{"what Destination.Insert derives from a block (rows per log/tx/trace) is decided by C09/C11/C12/C13/C14; this check decides that each block in range is handed to Insert exactly once and that the position advances by exactly those blocks"}, convAssume...),
+		Bounds:      map[string]string{"quick": "k in 0..2 prior cursor rows; batch_size in {1,2,3} x concurrency in {1,2,4} (includes batch < concurrency and non-divisible pairs); head, start, cursor numbers free 64-bit values < 2^62", "thorough": "k in 0..3; batch in {1,2,3,4,6} x concurrency in {1,2,3,4,8}; both goroutine orders"},
+		Outside:     []string{"real pgx/COPY and JSON", "pollDuration timing", "batch sizes above the bound (the partition arithmetic is checked for the listed pairs only)"},
+	})
+	register(&PropSpec{
+		ID:   "C06",
+		Pkgs: []string{"./shovel"},
+		Runs: func(tier string) []HRun {
+			var rs []HRun
+			bs := []int{1, 3}
+			if tier == "thorough" {
+				bs = []int{1, 2, 3, 5, 8}
+			}
+			for k := 0; k <= 1; k++ {
+				for _, b := range bs {
+					for sm := 0; sm <= 1; sm++ {
+						rs = append(rs, HRun{Pkg: "./shovel", Fn: "ZZ_C06_Range", Params: []int{k, b, sm}})
+					}
+				}
+			}
+			return rs
+		},
+		Assumptions: append([]string{"start, stop, head and the prior position are free 64-bit values < 2^62 (start = 0 is the separate 'no start configured' mode); a block above the head has no hash (the node answers null, which is an error after fix c4a5d7e)"}, convAssume...),
+		Bounds:      map[string]string{"quick": "with/without prior position x batch in {1,3} x start configured or not", "thorough": "batch in {1,2,3,5,8}"},
+		Outside:     []string{"restarts are covered as 'resume from an arbitrary recorded position'"},
+	})
+	register(&PropSpec{
+		ID:   "C03",
+		Pkgs: []string{"./shovel"},
+		Runs: func(tier string) []HRun {
+			var rs []HRun
+			type cfg struct{ k, canon, batch, steps int }
+			cs := []cfg{{2, 1, 1, 2}, {2, 1, 2, 2}, {3, 1, 2, 3}, {3, 2, 2, 2}, {2, 2, 2, 1}, {3, 3, 1, 1}}
+			if tier == "thorough" {
+				cs = append(cs, cfg{2, 1, 3, 2}, cfg{3, 1, 3, 3}, cfg{4, 1, 2, 4}, cfg{4, 2, 2, 3}, cfg{3, 2, 4, 2})
+			}
+			for _, c := range cs {
+				rs = append(rs, HRun{Pkg: "./shovel", Fn: "ZZ_C03_Reorg", Params: []int{c.k, c.canon, c.batch, c.steps}})
+			}
+			return rs
+		},
+		Assumptions: append([]string{
+			"the chain is frozen at its canonical version while the task converges ('once the source settles'); the top (k - canon) cursor rows carry orphaned hashes, the oldest retained cursor row is canonical (forks below the retained history are outside the property as well)",
+			"reorgs landing between the RPC calls of one fetch are covered only through C07's linkage validation of each fetched segment, not by this harness",
+		}, convAssume...),
+		Bounds:  map[string]string{"quick": "(k cursor rows, canonical prefix, batch, steps) in {(2,1,1,2),(2,1,2,2),(3,1,2,3),(3,2,2,2),(2,2,2,1),(3,3,1,1)}; cursor numbers arbitrary increasing (any earlier batch sizes)", "thorough": "adds fork depths up to 3 rows and batch up to 4"},
+		Outside: []string{"the 1000-iteration cap of the unwind loop", "reorgs deeper than the retained cursor history", "a tip orphaned at the same height is only noticed when the head grows"},
+	})
+	register(&PropSpec{
+		ID:   "C02",
+		Pkgs: []string{"./shovel"},
+		Runs: func(tier string) []HRun {
+			var rs []HRun
+			type cfg struct{ k, canon, batch, conc, single int }
+			cs := []cfg{{1, 1, 2, 1, 1}, {2, 1, 2, 2, 1}, {2, 2, 1, 1, 1}, {1, 1, 2, 2, 0}}
+			if tier == "thorough" {
+				cs = append(cs, cfg{2, 1, 2, 2, 0}, cfg{3, 1, 3, 2, 1}, cfg{2, 2, 4, 4, 1}, cfg{3, 2, 2, 1, 0})
+			}
+			for _, c := range cs {
+				rs = append(rs, HRun{Pkg: "./shovel", Fn: "ZZ_C02_Faults", Params: []int{c.k, c.canon, c.batch, c.conc, c.single}, MaxPaths: 200000})
+			}
+			// the no-row-beyond-position clause at every commit of reorg histories
+			rs = append(rs, HRun{Pkg: "./shovel", Fn: "ZZ_C03_Reorg", Params: []int{2, 1, 2, 2}}, HRun{Pkg: "./shovel", Fn: "ZZ_C03_Reorg", Params: []int{3, 1, 2, 3}})
+			return rs
+		},
+		Assumptions: append([]string{
+			"fault kinds: every model entry point (begin, each exec/query/COPY, commit, each RPC) may return an error, chosen by a solver Boolean per call; single=1 adds the at-most-one constraint, single=0 allows any subset; process death at a point equals an error at that point followed by discarding in-memory state, which is what the retry from the committed state models",
+			"the retry runs against the same frozen chain so that 'as if the fault had not happened' is an equality of committed states with a fault-free step from the same pre-state",
+		}, convAssume...),
+		Bounds:  map[string]string{"quick": "(k, canonical prefix, batch, concurrency, single) in {(1,1,2,1,1),(2,1,2,2,1),(2,2,1,1,1),(1,1,2,2,0)} + two reorg runs", "thorough": "4 more configurations incl. multi-fault"},
+		Outside: []string{"Postgres honouring its own atomicity", "connection pool behaviour, statement_timeout"},
+	})
+	register(&PropSpec{
+		ID:   "C04",
+		Pkgs: []string{"./shovel", "./dig"},
+		Runs: func(tier string) []HRun {
+			rs := []HRun{
+				{Pkg: "./shovel", Fn: "ZZ_C03_Reorg", Params: []int{2, 1, 2, 2}},
+				{Pkg: "./shovel", Fn: "ZZ_C03_Reorg", Params: []int{3, 1, 2, 3}},
+				{Pkg: "./shovel", Fn: "ZZ_C03_Reorg", Params: []int{2, 2, 2, 1}},
+			}
+			for _, l := range []int{3, 13, 45, 29} {
+				rs = append(rs, HRun{Pkg: "./dig", Fn: "ZZ_C11_Log", Params: []int{l, 0, popIdx(l) + 1, 1}})
+			}
+			return rs
+		},
+		Assumptions: append([]string{
+			"frame condition per statement: three foreign pairs (same source/other integration, other source/same integration with the shared table, same source/other integration sharing the table) with arbitrary cursor rows are present while the task unwinds a reorg and inserts; they must be unchanged afterwards. Interleavings follow from the frame condition: statements that read and write only rows of their own pair commute",
+			"row stamping (ig_name/src_name of every emitted row equal the task's names) is decided on the real row builder (ZZ_C11_Log)",
+			"the shared-cache clause (log de-duplication on a cached block) is part of C08",
+		}, convAssume...),
+		Bounds:  map[string]string{"quick": "3 reorg/insert scenarios x 3 foreign pairs; 4 event layouts for the stamp", "thorough": "same"},
+		Outside: []string{"Postgres row-level isolation itself", "restarts (loadTasks context derivation) - see C20"},
+	})
+	register(&PropSpec{
+		ID:   "C05",
+		Pkgs: []string{"./shovel"},
+		Runs: func(tier string) []HRun {
+			var rs []HRun
+			for _, p := range [][]int{{1, 1, 1, 0, 2}, {1, 1, 0, 0, 2}, {1, 2, 1, 1, 2}, {1, 2, 1, 0, 2}, {1, 2, 0, 1, 2}, {1, 2, 0, 0, 2}, {0, 2, 2, 1, 2}, {1, 2, 2, 2, 1}} {
+				rs = append(rs, HRun{Pkg: "./shovel", Fn: "ZZ_C05_Deps", Params: p})
+			}
+			return rs
+		},
+		Assumptions: append([]string{
+			"the CTE of latestDependency is modelled by hand from its SQL (per referenced integration of the same source its newest cursor row; of those the smallest; plus the number of referenced integrations that have rows); a same-named integration on another source is present and must not count",
+			"that config.ValidateFilterRefs lists every referenced integration in Dependencies, and that reference lookups run on the inserting transaction, are not covered by this harness",
+		}, convAssume...),
+		Bounds:  map[string]string{"quick": "1-2 referenced integrations with 0..2 cursor rows each (0 = not started), own position present or not", "thorough": "same"},
+		Outside: []string{"dependencies declared in nested tuple components"},
+	})
+}
